@@ -469,6 +469,13 @@ func runX(cfg *XCfg, pc PoolCfg) (par []float64, errd bool, panicked string) {
 		}
 		inPool(pool, pc.Nested, func(q tp.ThreadPool) { aerr = est.EstimateOnData(x, gamma, q) })
 		p = est.GetParameters()
+	case "negbin":
+		est, err := scalarEstimator.NewNegativeBinomialEstimator(3.0, 0.5)
+		if err != nil {
+			panic(err)
+		}
+		inPool(pool, pc.Nested, func(q tp.ThreadPool) { aerr = est.EstimateOnData(x, gamma, q) })
+		p = est.GetParameters()
 	case "vnormal":
 		est, err := vectorEstimator.NewNormalEstimator([]float64{0, 0}, []float64{1, 0, 0, 1}, 1e-8)
 		if err != nil {
